@@ -17,14 +17,14 @@ pub struct COp {
     pub b: u8,
 }
 
-pub const OP_NAMES: [&str; 37] = [
+pub const OP_NAMES: [&str; 39] = [
     "file.serialize", "elem.serialize", "path", "xml_path", "model", "file_membership", "elements_dfs", "sub_elements", "identifiable_elements", "get_element_by_path", "get_references_to", "check_references",
     "check_version_compatibility", "cmp", "debug", "item_name+character_data", "get_reference_target", "create_sub_element", "create_named_sub_element", "remove_sub_element", "set_item_name", "move_element_here",
-    "create_copied_sub_element", "set_character_data", "set_reference_target", "set_attribute", "remove_attribute", "set_comment", "model.sort", "create_file", "remove_file", "add_to_file", "remove_from_file", "load_buffer", "duplicate", "elem.sort", "set_filename",
+    "create_copied_sub_element", "set_character_data", "set_reference_target", "set_attribute", "remove_attribute", "set_comment", "model.sort", "create_file", "remove_file", "add_to_file", "remove_from_file", "load_buffer", "duplicate", "elem.sort", "set_filename", "remove_character_data", "position",
 ];
-pub const NCODES: u8 = 37;
+pub const NCODES: u8 = 39;
 pub fn is_writer(code: u8) -> bool {
-    code >= 17
+    code >= 17 && code != 38
 }
 
 pub struct Fix {
@@ -168,6 +168,8 @@ impl Fix {
             }
             34 => r(self.model.duplicate().map(|d| format!("{}", d.elements_dfs().count()))),
             36 => r(self.files[[0, 2][o.a as usize % 2]].set_filename(format!("ren{tag}.arxml")).map(|_| "renamed".into())),
+            37 => r(e.remove_character_data().map(|_| "removed".into())),
+            38 => format!("{:?}", e.position()),
             _ => {
                 e.sort();
                 "ok".into()
